@@ -551,6 +551,10 @@ public:
         if (m_n != mat.cols())
             throw std::invalid_argument("BKLDLT: matrix must be square");
 
+        // The status is only changed below when a singular pivot block is met
+        // (for a 1x1 matrix the elimination loop is never entered)
+        m_info = CompInfo::Successful;
+
         m_perm.setLinSpaced(m_n, 0, m_n - 1);
         m_permc.clear();
 
